@@ -352,6 +352,35 @@ def messageGetFd (env : PEnv) (ms : MsgSt) (part : Option Msg) (dobody : Bool) :
 
 /-! ## util.c -/
 
+/-! ### `<sys/wait.h>` on the raw wait status (glibc `bits/waitstatus.h`), and `exec()`'s mapping of it -/
+
+/-- `WIFEXITED(status)`: `(status & 0x7f) == 0`. -/
+def wifexited (status : Nat) : Bool := status % 128 == 0
+/-- `WEXITSTATUS(status)`: `(status & 0xff00) >> 8`. -/
+def wexitstatus (status : Nat) : Nat := (status / 256) % 256
+/-- `WIFSIGNALED(status)`: `((signed char)((status & 0x7f) + 1) >> 1) > 0`, i.e. the low seven bits are neither 0
+(exited) nor 0x7f (stopped). -/
+def wifsignaled (status : Nat) : Bool := status % 128 != 0 && status % 128 != 127
+/-- `WTERMSIG(status)`: `status & 0x7f`. -/
+def wtermsig (status : Nat) : Nat := status % 128
+
+/-- The tail of `exec()` (util.c) after a successful `waitpid`:
+```
+int error = 1;
+if (WIFEXITED(status)) { error = WEXITSTATUS(status); if (error == 127) error = -1; }
+if (WIFSIGNALED(status)) error = 128 + WTERMSIG(status);
+```
+(a stopped child - not reported by `waitpid(pid, &status, 0)` - would leave the initial value 1). -/
+def execStatus (status : Nat) : Int :=
+  let error : Int := 1
+  let error : Int :=
+    if wifexited status then (if wexitstatus status == 127 then -1 else (wexitstatus status : Int)) else error
+  if wifsignaled status then ((128 + wtermsig status : Nat) : Int) else error
+
+/-- The child of `exec()`: `execvp(argv[0], argv); warn(...); _exit(127);` - whatever the reason `execvp` fails for
+(ENOENT, EACCES, ENOTDIR, ENOEXEC, ...), the child exits with this status, which the parent maps to -1. -/
+def execvpFailedStatus : Nat := 127
+
 /-- `exec(argv, fdin)`: `> 0` exited non-zero / signalled, `0` success, `< 0` fatal. -/
 def execP (fdin : Option Handle) : Prog Int := do
   let dn ← (match fdin with
@@ -369,18 +398,25 @@ def execP (fdin : Option Handle) : Prog Int := do
       | .ok _ => do
         let w ← call .waitpid
         match w with
-        | .ok status =>
-          -- raw wait status: exited = low 7 bits zero; signalled otherwise
-          if status % 128 == 0 then
-            let code := (status / 256) % 256
-            pure (if code == 127 then (-1 : Int) else (code : Int))
-          else pure ((128 + status % 128 : Nat) : Int)
+        | .ok status => pure (execStatus status)      -- the raw wait status
         | _ => pure (-1 : Int)
       | _ => pure (-1 : Int))
     match devnull with
     | some h => let _ ← call (.close h)
     | none => pure ()
     pure res
+
+/-- The value `exec()` derives from what `fork`/`waitpid` report: 0 for a clean exit, the exit
+code for a non-zero exit other than 127, -1 for 127, 128 + signal for a signalled child, and -1
+when /dev/null cannot be opened or `fork`/`waitpid` fail. -/
+def execValue (devnullOk : Bool) (forkRes waitRes : Res) : Int :=
+  if !devnullOk then -1
+  else match forkRes with
+    | .ok _ =>
+      match waitRes with
+      | .ok status => execStatus status
+      | _ => -1
+    | _ => -1
 
 /-! ## match.c: matches_exec -/
 
